@@ -18,6 +18,8 @@ for res in sorted(glob.glob('/verif/work/seedres/*.txt')):
         pid=pid[:-2]; src='/tmp/seed4-%s'%pid
     elif pid.endswith('r5'):
         pid=pid[:-2]; src='/tmp/seed5-%s'%pid
+    elif pid.endswith('r6'):
+        pid=pid[:-2]; src='/tmp/seed6-%s'%pid
     kv={}
     for l in open(res):
         if '=' in l:
@@ -60,7 +62,16 @@ for res in sorted(glob.glob('/verif/work/seedres/*.txt')):
             outcome='not counted: '+DISPOSITION[name]
             m['disposition']=DISPOSITION[name]
             json.dump(m,open(dst+'/meta.json','w'),indent=1,ensure_ascii=False)
-        rows.append((name,m['title'],m['needs_to_manifest'],', '.join('%s: %s'%(c,'; '.join(oc[c]['violation_keys'][:3]) or 'exit %s'%oc[c]['exit']) for c in oc), outcome))
+# the index is rebuilt from every kept change's meta.json (work/seedres is scratch and may be gone)
+def _key(d):
+    m=re.match(r'(C\d+)(?:r(\d+))?-(\d+)$',d)
+    return (m.group(1),int(m.group(2) or 1),int(m.group(3)))
+for name in sorted([d for d in os.listdir('/verif/seeded') if os.path.isdir('/verif/seeded/'+d)],key=_key):
+    m=json.load(open('/verif/seeded/%s/meta.json'%name)); oc=m.get('checks_run',{})
+    caught=[c for c,v in oc.items() if v['exit']==1]
+    outcome='caught by '+', '.join(caught) if caught else 'MISSED'
+    if m.get('disposition') and not caught: outcome='not counted: '+m['disposition']
+    rows.append((name,m.get('title',''),m.get('needs_to_manifest',''),', '.join('%s: %s'%(c,'; '.join(oc[c]['violation_keys'][:3]) or 'exit %s'%oc[c]['exit']) for c in oc), outcome))
 with open('/verif/seeded/INDEX.md','w') as f:
     f.write('# Seeded changes (independent mutation rounds)\n\nEach directory: patch.diff (apply with `git -C /repo apply`), demo/ (fails with the change, passes without), meta.json.\n\n| id | change | needs to manifest | checks run (first keys) | outcome |\n|---|---|---|---|---|\n')
     for r in rows:
